@@ -14,6 +14,15 @@ Every monitor is a relation between two executions of the same JSON case
                 StateFactory + one BenchmarkRunner serve several seeded runs in a row;
                 every run with the case's seed must equal the run of brand-new objects
 
+  shared-experimenter one deterministic experimenter object (bare BBOB NumpyExperimenter,
+                optionally sign-flipped / shifted / hash-infeasible) serves 3-4 seeded
+                runs in a row, each with a new supporter and a new policy (in-RAM or
+                PartiallySerializableDesignerPolicy, which writes designer state into the
+                study metadata); every run must be given the same problem statement and
+                every run with the case's seed must equal the run of brand-new objects
+  in-ram-twin   (quasi-random, shuffled grid) a designer rebuilt and restored from the
+                study metadata at every request vs the same designer kept in RAM
+
 plus seed sensitivity (different seeds => different streams on >= 2**10 points)
 and seeded BenchmarkRunner executions (trial sequence incl. noisy metrics).
 "phase" cases take Eagle through its later phases (pool full -> fly removed -> pool
@@ -52,7 +61,14 @@ RULE = ('case = (designer in {random, quasi-random, shuffled grid, eagle, NSGA-I
         'study metadata per request) whose history demonstrably re-populates the pool. Each '
         'case is executed 3-6 times under the variants above; distinct = hash of (type, '
         'designer, wrapper, space shape, batch profile, seed class, experimenter '
-        'transformations); non-trivial when the run made >= 2 suggestions.')
+        'transformations); non-trivial when the run made >= 2 suggestions. Seeds: a fifth of '
+        'the stream cases and two thirds of the "hosted" cases (quasi-random / shuffled grid '
+        'under a new PartiallySerializableDesignerPolicy per request, 3-6 requests, compared '
+        'with the in-RAM twin) draw the seed from the rim of the designer\'s accepted domain '
+        '(negative where accepted, 2**31..2**32, beyond 2**32 up to 80 bits). "Shared '
+        'experimenter" cases: a deterministic BBOB experimenter object (bare or sign-flipped / '
+        'shifted / hash-infeasible) x policy in {in-RAM, PartiallySerializableDesignerPolicy} '
+        'x 3-4 consecutive seeded runs on that one object.')
 ASSUMPTIONS = [
     'suggestions are compared by parameter values, exactly (repr of float64)',
     'GP designers are compared exactly within one process configuration; a cross-process GP '
@@ -64,6 +80,14 @@ ASSUMPTIONS = [
     'reuse across runs is only demanded of ExperimenterDesignerBenchmarkStateFactory (it is '
     'given an experimenter *factory*); a DesignerBenchmarkStateFactory holding one '
     'experimenter object is always built anew per run',
+    'an experimenter object held across runs is only demanded to be reusable when it has no '
+    'random state of its own (NumpyExperimenter, SignFlip, Shifting, HashingInfeasible); '
+    'noisy experimenters are shared only through their factory',
+    'restored-per-request == in-RAM is only demanded of the designers whose dump() persists '
+    'the whole stream state (quasi-random, shuffled grid); Eagle / NSGA-II / CMA-ES are '
+    'compared with themselves under the same hosting only',
+    'seeds outside a designer\'s accepted domain (negative for numpy-seeded designers, '
+    '>= 2**32 for RandomState-seeded ones) are not generated',
     'the Eagle phase reached by a history is read from the eagle/parent_fly_id metadata of '
     'the suggestions (a new fly id after flies were moved = pool re-populated)',
 ]
@@ -71,7 +95,11 @@ REQUIRED_COUNTERS = ['pairs_compared', 'seed_sensitivity_pairs', 'pairs:repeat',
                      'pairs:perturbed', 'pairs:interleaved', 'pairs:fresh-process',
                      'pairs:after-servicer', 'bench_pairs_compared', 'gp_pairs_compared',
                      'gp_fresh_process_pairs', 'seed0_pairs', 'x64_flip_observed',
-                     'bench_reused_factory_pairs_noisy', 'eagle_refill_restored_pairs']
+                     'bench_reused_factory_pairs_noisy', 'eagle_refill_restored_pairs',
+                     'hosted_vs_in_ram_pairs', 'hosted_vs_in_ram_pairs_wide_seed',
+                     'hosted_vs_in_ram_pairs:seed-class-4',
+                     'bench_shared_experimenter_pairs:partial',
+                     'bench_shared_experimenter_pairs:inram', 'bench_shared_problem_pairs']
 MIN_DISTINCT = {'quick': 60, 'thorough': 1000}
 
 N_GP_TASKS = {'quick': 4, 'thorough': 48}
@@ -87,6 +115,37 @@ def plan(tier, seed):
 # ---------------------------------------------------------------------------
 def _seed(rng):
   return rng.choice([0, 0, 1, rng.getrandbits(16), rng.getrandbits(31)])
+
+
+# the integers each designer accepts as a seed beyond [0, 2**31): (negative, bits).
+# RandomDesigner / NSGA-II feed np.random.RandomState ([0, 2**32) only), quasi-random
+# and Eagle feed numpy SeedSequence (any non-negative int), the shuffled grid feeds
+# random.Random (any int); CMA-ES (a jax key) is kept to 32 bits.
+SEED_DOMAIN = {'random': (False, 32), 'nsga2': (False, 32), 'qr': (False, 80),
+               'eagle': (False, 80), 'sgrid': (True, 80), 'cmaes': (False, 32)}
+
+
+def _wide_seed(rng, kind, flavour=None):
+  """A seed from the rim of the designer's domain: negative, 2**31.., beyond 2**32."""
+  negative, bits = SEED_DOMAIN[kind]
+  r16, r31, rbig = rng.getrandbits(16), rng.getrandbits(31), rng.getrandbits(bits)
+  positive = [2 ** 31 + r31]
+  if bits > 32:
+    positive = [2 ** 32, 2 ** 32 + r16, rbig | (1 << (bits - 1))] + positive[:flavour is None]
+  minus = [-1, -1 - r16, -1 - r31] if negative else []
+  if flavour == 'negative' and minus:
+    return rng.choice(minus)
+  if flavour == 'positive':
+    return rng.choice(positive)
+  return rng.choice(positive + minus * 2)
+
+
+def seed_class(s):
+  if s < 0:
+    return 4
+  if s >= 2 ** 31:
+    return 5 if s < 2 ** 32 else 6
+  return 0 if s == 0 else (1 if s == 1 else (2 if s < 2 ** 16 else 3))
 
 
 def gen_stream_case(rng, kind, big=False, wrap=None):
@@ -112,8 +171,31 @@ def gen_stream_case(rng, kind, big=False, wrap=None):
       wrap = 'stateless_policy'
   if big:
     script['batches'][0] = max(script['batches'][0], 6)
-  return {'type': 'stream', 'designer': ds, 'problem': pd, 'seed': _seed(rng),
+  seed = _seed(rng)
+  if not big and rng.random() < 0.2:
+    seed = _wide_seed(rng, kind)
+  return {'type': 'stream', 'designer': ds, 'problem': pd, 'seed': seed,
           'script': script, 'wrap': wrap}
+
+
+def gen_hosted_case(rng, kind=None, index=0):
+  """A designer hosted the way the service does it, over the whole seed domain.
+
+  A new PartiallySerializableDesignerPolicy per request: the designer is rebuilt and
+  restored from the study metadata, the seed included. For the designers whose dump()
+  persists the whole stream state the result must be the stream of one designer kept
+  in RAM (same seed, same problem, same history) -- the in-RAM twin is executed too.
+  """
+  if kind is None:
+    kind = rng.choice(X.FULLY_PERSISTED_KINDS)
+  case = gen_stream_case(rng, kind, wrap='stateless_policy')
+  n = rng.choice([3, 4, 5, 6])
+  case['script'] = dict(L.gen_script(rng, n, kind), salt=case['script']['salt'])
+  # the seed classes rotate with the case index: ordinary, negative, beyond 32 bits
+  ordinary, minus, plus = (_seed(rng), _wide_seed(rng, kind, 'negative'),
+                           _wide_seed(rng, kind, 'positive'))
+  case['seed'] = [ordinary, minus, plus][index % 3]
+  return case
 
 
 def gen_gp_seed_stage_case(rng, kind):
@@ -197,6 +279,40 @@ def gen_bench_factory_case(rng, kind=None):
   return case
 
 
+def gen_bench_shared_case(rng, kind=None, index=0):
+  """A benchmark that holds ONE deterministic experimenter object for all its runs.
+
+  DesignerBenchmarkStateFactory / PolicyBenchmarkStateFactory hold an experimenter (not
+  a factory); a BBOB NumpyExperimenter -- bare or under the deterministic wrappers --
+  has no random state, so every seeded run it serves (new supporter, new policy) must
+  be the run of brand-new objects. The policy is the in-RAM one or the serializable
+  one the service uses (it writes designer state into the study metadata).
+  """
+  policy = ['partial', 'partial', 'inram'][index % 3]     # rotates with the case index
+  kinds = (['qr', 'sgrid', 'eagle', 'nsga2', 'cmaes'] if policy == 'partial' else
+           ['random', 'qr', 'sgrid', 'eagle', 'nsga2'])
+  if kind is None:
+    kind = rng.choice(kinds)
+  case = gen_bench_case(rng, kind)
+  case['noise'], case['infeasible'] = None, None
+  wrappers = []
+  if kind != 'cmaes' and rng.random() < 0.2:
+    wrappers.append(['infeasible', {'p': rng.choice([0.2, 0.5]),
+                                    'seed': rng.choice([0, 3, rng.getrandbits(16)])}])
+  if rng.random() < 0.2:
+    wrappers.append(['shift', [round(rng.uniform(-2.0, 2.0), 3) for _ in range(case['dim'])]])
+  if rng.random() < 0.25:
+    wrappers.append(['signflip'])
+  case.update(via='shared_exptr', policy=policy, wrappers=wrappers)
+  other = _seed(rng)
+  while other == case['seed']:
+    other = rng.getrandbits(16)
+  case['reuse_seeds'] = rng.choice([[case['seed'], case['seed'], other, case['seed']],
+                                    [other, case['seed'], case['seed']],
+                                    [case['seed'], other, case['seed']]])
+  return case
+
+
 def gen_phase_case(rng, kind='eagle'):
   """A history that takes the designer through its later phases.
 
@@ -231,11 +347,13 @@ def gen_phase_case(rng, kind='eagle'):
 
 def abstraction(case):
   ds = case['designer']
-  s = case['seed']
-  seed_class = 0 if s == 0 else (1 if s == 1 else (2 if s < 2 ** 16 else 3))
+  sc_ = seed_class(case['seed'])
   if case['type'] == 'bench':
     a = ['bench', ds['kind'], case['fn'], case['noise'], case['dim'], case['routine'],
-         case['repeats'], seed_class]
+         case['repeats'], sc_]
+    if case.get('via') == 'shared_exptr':
+      return a + [case['via'], case['policy'], [w[0] for w in case['wrappers']],
+                  len(case['reuse_seeds'])]
     if case.get('via'):
       xf = case['xf']
       a += [case['via'], xf['shift'] is not None, bool(xf['normalize']),
@@ -245,7 +363,7 @@ def abstraction(case):
   sc = case['script']
   return ['stream', ds['kind'], L.dumps(ds.get('cfg', {})), case.get('wrap'),
           gen.space_shape(case['problem']['space']), len(case['problem']['metrics']),
-          sc['batches'], sc['p_complete'], sc['p_infeasible'], seed_class]
+          sc['batches'], sc['p_complete'], sc['p_infeasible'], sc_]
 
 
 def size_of(case, stream):
@@ -404,6 +522,9 @@ def check_case(ctx, case, index, state):
     # a restored designer re-populating its pool at another wall-clock time
     ctx.count('eagle_refill_restored_pairs')
   compare(ctx, case, 'perturbed', base, other, {'perturb': k, 'clock_shift': shift})
+  if (case['type'] == 'stream' and case.get('wrap') == 'stateless_policy'
+      and case['designer']['kind'] in X.FULLY_PERSISTED_KINDS):
+    check_in_ram_twin(ctx, case, base)
   prev = state.get('prev')
   if prev is not None:
     pcase, pbase = prev
@@ -413,6 +534,74 @@ def check_case(ctx, case, index, state):
   state['prev'] = (case, base)
   state['stored'].append((case, base, cost))
   return base
+
+
+def check_in_ram_twin(ctx, case, base):
+  """Restored at every request vs one designer object kept in RAM.
+
+  Same designer, seed, problem and completion script; only the hosting differs. For
+  the designers that persist their whole stream state the two streams are one.
+  """
+  kind = case['designer']['kind']
+  twin = safe_execute(ctx, dict(case, wrap='direct'))
+  ctx.count('hosted_vs_in_ram_pairs')
+  ctx.count(f'hosted_vs_in_ram_pairs:seed-class-{seed_class(case["seed"])}')
+  if case['seed'] < 0 or case['seed'] >= 2 ** 32:
+    ctx.count('hosted_vs_in_ram_pairs_wide_seed')
+  if twin == base:
+    return
+  at = X.flat_first_diff(twin, base)
+  n_first = len(base[0]) if isinstance(base, list) and base and isinstance(base[0], list) else 0
+  if isinstance(twin, tuple):
+    where = 'in-ram-raises'
+  else:
+    where = 'from-first-request' if at is not None and at <= n_first else 'after-restore'
+  sc_ = {0: 'seed-0', 4: 'negative-seed', 6: 'seed-beyond-32-bits'}.get(
+      seed_class(case['seed']), 'seed')
+  ctx.violation(f'not-reproducible:{kind}:restored-per-request-vs-in-ram:{where}:{sc_}',
+                f'{kind} (seed {case["seed"]}): rebuilt and restored from the study metadata '
+                'at every request it produced another suggestion stream than one designer '
+                'object kept in RAM (same seed, problem and history)',
+                dict(case, variant='in-ram-twin'),
+                {'first_difference': X.first_diff(twin, base) if isinstance(twin, list) else twin,
+                 'first_difference_at_suggestion': at,
+                 'in_ram': twin if isinstance(twin, tuple) else twin[:3],
+                 'restored_per_request': base[:3]})
+
+
+def check_shared_experimenter(ctx, case, base):
+  """Consecutive seeded runs on ONE deterministic experimenter vs brand-new objects."""
+  seeds = case['reuse_seeds']
+  kind = case['designer']['kind']
+  tag = f'shared-experimenter:{case["policy"]}-policy'
+  try:
+    runs, problems = X.execute_shared(case, seeds)
+  except Exception as e:  # pylint: disable=broad-except
+    ctx.violation(f'bench-not-reproducible:{kind}:{tag}:raises',
+                  f'a later run on the same experimenter raised {type(e).__name__}: '
+                  f'{str(e)[:200]} where the run of new objects did not',
+                  dict(case, variant='shared-experimenter'))
+    return
+  for j, (s, got) in enumerate(zip(seeds, runs)):
+    ctx.count('bench_shared_problem_pairs')
+    if problems[j] != problems[0]:
+      changed = [k for k in problems[0] if problems[0][k] != problems[j][k]]
+      ctx.violation(f'bench-not-reproducible:{kind}:{tag}:problem-statement-changed:'
+                    + '+'.join(c for c in changed if c != 'metadata_head'),
+                    f'run {j} on the same experimenter object was handed another problem '
+                    'statement than the first run',
+                    dict(case, variant='shared-experimenter'),
+                    {'run_index': j, 'first': problems[0], 'this': problems[j]})
+      problems = [problems[0]] * len(problems)     # named once; the runs are still compared
+    if s != case['seed']:
+      continue
+    ctx.count('bench_shared_experimenter_pairs')
+    ctx.count(f'bench_shared_experimenter_pairs:{case["policy"]}')
+    ok = compare(ctx, case, 'shared-experimenter', base, got,
+                 {'reuse_seeds': seeds, 'run_index': j, 'policy': case['policy']},
+                 mech_suffix=f':{case["policy"]}-policy' + reuse_suffix(case, seeds, j, base, got))
+    if not ok:
+      return
 
 
 def reuse_suffix(case, seeds, j, base, got):
@@ -592,18 +781,27 @@ def _schedule():
   out, old = [], list(_OLD_SLOTS)
   for j in range(8):
     out.append(('phase', 'eagle') if j % 2 == 0 else ('benchf', None))
+    # a designer restored per request vs its in-RAM twin / one experimenter object
+    # serving several runs: each every ~10 slots
+    if j % 2 == 0:
+      out.append(('hosted', 'sgrid' if j % 4 == 0 else None))
+    else:
+      out.append(('benchs', None))
     n = 4 if j < 5 else 3
     out.extend(old[:n])
     old = old[n:]
   assert not old
+  # 45 slots would share factors with 6 / 12 shards: pad to 47 (prime)
+  out.insert(23, ('hosted', 'sgrid'))
+  out.insert(35, ('benchs', None))
   return out
 
 
-SCHEDULE = _schedule()    # 37 slots (prime)
-assert len(SCHEDULE) == 37
+SCHEDULE = _schedule()    # 47 slots (prime)
+assert len(SCHEDULE) == 47
 
 
-def gen_case(rng, slot):
+def gen_case(rng, slot, index=0):
   typ, kind = slot
   if typ == 'stream':
     return gen_stream_case(rng, kind)
@@ -613,6 +811,10 @@ def gen_case(rng, slot):
     return gen_bench_factory_case(rng, kind)
   if typ == 'phase':
     return gen_phase_case(rng, kind)
+  if typ == 'hosted':
+    return gen_hosted_case(rng, kind, index)
+  if typ == 'benchs':
+    return gen_bench_shared_case(rng, kind, index)
   if typ == 'gpseed':
     return gen_gp_seed_stage_case(rng, kind)
   raise ValueError(typ)
@@ -630,7 +832,7 @@ def my_cheap_cases(ctx, limit):
     slot = SCHEDULE[i % len(SCHEDULE)]
     if slot[0] == 'sens':
       continue
-    case = gen_case(ctx.rng(i), slot)
+    case = gen_case(ctx.rng(i), slot, i)
     case['index'] = i
     out.append(case)
   return out
@@ -673,12 +875,14 @@ def run_shard(ctx):
     if slot[0] == 'sens':
       check_seed_sensitivity(ctx, slot[1], i)
       continue
-    case = gen_case(ctx.rng(i), slot)
+    case = gen_case(ctx.rng(i), slot, i)
     case['index'] = i
     if i < 2 * ctx.nshards:
       ctx.sample({k: case[k] for k in case if k not in ('problem',)})
     base = check_case(ctx, case, i, state)
-    if base is not None and case.get('reuse_seeds'):
+    if base is not None and case.get('via') == 'shared_exptr':
+      check_shared_experimenter(ctx, case, base)
+    elif base is not None and case.get('reuse_seeds'):
       check_reused_factory(ctx, case, base)
   stored = state['stored']
   by_index = {c['index']: (c, b) for c, b, _ in stored}
@@ -722,6 +926,13 @@ def replay(ctx, case):
       ctx.violation(f'seed-ignored:{case["designer"]["kind"]}', 'replayed', case)
     return
   base = safe_execute(ctx, case)
+  if variant == 'shared-experimenter' or (
+      variant == 'reused-factory' and case.get('via') == 'shared_exptr'):
+    check_shared_experimenter(ctx, case, base)
+    return
+  if variant == 'in-ram-twin':
+    check_in_ram_twin(ctx, case, base)
+    return
   if variant == 'reused-factory':
     check_reused_factory(ctx, case, base)
     return
